@@ -16,23 +16,24 @@ BatchFile == JsonDeserialize(IOEnv.TRACE_FILE)
 ASSUME TLCSet(7, BatchFile)
 Batch == TLCGet(7)
 
-VARIABLES tid, l, verdict
+VARIABLES tid, l, verdict, hi      \* hi: the largest item index demanded so far
 T == Batch[tid]
 Pipe(t) == [i \in 1..Len(t.pipe) |-> St(t.pipe[i].kind, t.pipe[i].p)]
 
-Init == tid \in 1..Len(Batch) /\ l = 1 /\ verdict = "ok"
+Init == tid \in 1..Len(Batch) /\ l = 1 /\ verdict = "ok" /\ hi = 0
 
 Step ==
     /\ l <= Len(T.ev)
     /\ LET e == T.ev[l]
            v == IF e.e = "hang" THEN "violation:does-not-terminate@" \o ToString(e.j)
                 ELSE IF e.e = "raise" THEN "violation:raised-" \o e.what
-                ELSE IF e.pulled > Allowed(Pipe(T), e.j + 1) THEN "violation:pulls-beyond-linear-bound@" \o ToString(e.j)
+                ELSE IF e.pulled > Allowed(Pipe(T), (IF e.j > hi THEN e.j ELSE hi) + 1) THEN "violation:pulls-beyond-linear-bound@" \o ToString(e.j)
                 ELSE "ok"
        IN /\ verdict' = IF verdict = "ok" THEN v ELSE verdict
           /\ l' = IF v = "ok" THEN l + 1 ELSE Len(T.ev) + 1
+    /\ hi' = IF T.ev[l].j > hi THEN T.ev[l].j ELSE hi
     /\ tid' = tid
     /\ (l' <= Len(T.ev) \/ PrintT(<<"V", tid, verdict'>>))
-Empty == l = 1 /\ Len(T.ev) = 0 /\ l' = 2 /\ UNCHANGED <<tid, verdict>> /\ PrintT(<<"V", tid, "skip:no-events">>)
+Empty == l = 1 /\ Len(T.ev) = 0 /\ l' = 2 /\ UNCHANGED <<tid, verdict, hi>> /\ PrintT(<<"V", tid, "skip:no-events">>)
 Next == Step \/ Empty
 ====
